@@ -16,6 +16,11 @@ import BfeVerif.C37.Model
      wo           open a stream, WINDOW_UPDATE 2^31-1 on it (stream error FLOW_CONTROL: 1)
      od           open a stream with content-length 0, 1 octet of DATA (RST_STREAM + WINDOW_UPDATE: 2)
      hd<len>      open a stream with END_STREAM, DATA len on it (half-closed: WINDOW_UPDATE if len>0, RST_STREAM)
+     pd           open a stream, DATA with padding (connection-level WINDOW_UPDATE for the padding: 1; the
+                  stream-level one is a stream frame)
+     lp<n>        long normal use: n PINGs while the client reads (drained every 1000)
+     lm<n>        n rounds of PING + DATA on a closed stream + zero WINDOW_UPDATE (4 frames a round), client reading
+     ck<k>        (first token) the server's reads return at most k bytes: segmentation only
      rel          the client reads again; wait until everything is written
      o            observe `q=<queuedControlFrames>,z=<len(writeSched.zero)>` on the serve goroutine, or `closed`
   result = one token per op: `s` | `+` (connection alive afterwards) | `x` (connection closed) | observation
@@ -27,6 +32,10 @@ inductive Op where
   | stall | ping (n : Nat) | dataClosed (id len : Nat) | wuZero (id : Nat) | settings | rel | obs
   | bulk (n k : Nat)        -- n received frames queueing k stream-less frames each
   | openThen (k : Nat)      -- a HEADERS frame opening a stream (queues nothing), then a frame queueing k
+  | longRun (n : Nat) (ks : List Nat)   -- n rounds of received frames queueing ks, the writer keeping up
+  | chunk
+  | three                   -- HEADERS, DATA+END_STREAM (both queue nothing), then DATA on the half-closed stream
+                            -- that still buffers unread octets: WINDOW_UPDATE + RST_STREAM + WINDOW_UPDATE = 3
 deriving Repr
 
 def parseOp (t : String) : Option Op :=
@@ -34,7 +43,11 @@ def parseOp (t : String) : Option Op :=
   else if t == "st" then some .settings
   else if t == "rel" then some .rel
   else if t == "o" then some .obs
-  else if t == "hh" || t == "wo" then some (.openThen 1)
+  else if t == "hh" || t == "wo" || t == "pd" then some (.openThen 1)
+  else if t == "h3" then some .three
+  else if t.startsWith "ck" then (t.drop 2).toString.toNat?.map fun _ => .chunk
+  else if t.startsWith "lp" then (t.drop 2).toString.toNat?.map fun n => .longRun n [1]
+  else if t.startsWith "lm" then (t.drop 2).toString.toNat?.map fun n => .longRun n [1, 2, 1]
   else if t == "od" then some (.openThen 2)
   else if t.startsWith "hd" then (t.drop 2).toString.toNat?.map fun len => .openThen (if len > 0 then 2 else 1)
   else if t.startsWith "dcx" then
@@ -84,6 +97,17 @@ def opStep (d : D) : Op → String × D
     let d' := settle { d with s := step d.s (.recv (if len > 0 then 2 else 1) true) }; (alive d', d')
   | .wuZero _ => let d' := settle { d with s := step d.s (.recv 1 true) }; (alive d', d')
   | .bulk n k => let d' := settle { d with s := recvs k n d.s }; (alive d', d')
+  | .chunk => ("+", d)
+  | .three =>
+    let d' := settle { d with s := step (step (step d.s (.recv 0 true)) (.recv 0 true)) (.recv 3 true) }
+    (alive d', d')
+  | .longRun n ks =>
+    -- every received frame is followed by the writer draining the queue (the client reads)
+    let round (s : St) : St := ks.foldl (fun s k => drainFuel 100000 (step s (.recv k true))) s
+    let rec go : Nat → St → St
+      | 0, s => s
+      | m + 1, s => go m (round s)
+    let d' := { d with s := go n d.s }; (alive d', d')
   | .openThen k =>
     let d' := settle { d with s := step (step d.s (.recv 0 true)) (.recv k true) }; (alive d', d')
   | .settings => let d' := settle { d with s := step d.s (.settings true) }; (alive d', d')
@@ -113,7 +137,8 @@ def kOf : Op → Nat
   | .wuZero _ => 1
   | .bulk n k => n * k
   | .openThen k => k
-  | _ => 0
+  | .three => 3
+  | _ => 0        -- longRun is only used while the client reads: nothing accumulates
 
 def parseObs (t : String) : Option (Int × Nat) :=
   match t.splitOn "," with
@@ -131,16 +156,17 @@ def monStep (m : Mon) (op : Op) (tok : String) : Mon :=
   -- every frame received while the writer is stalled adds its control frames to the queue
   let m := if m.stalled then { m with elicited := m.elicited + kOf op } else m
   let m := if m.stalled && m.elicited > limit then { m with mustClose := true } else m
-  let m := if m.elicited + 2 ≥ limit && m.stalled then m.tag "nt" else m
+  let m := if m.elicited + 3 ≥ limit && m.stalled then m.tag "nt" else m
   let m := match op with
     | .stall => if tok == "s" then { m with stalled := true, elicited := 0 }.tag "stall" else m
     | .rel => { m with stalled := false, elicited := 0 }
     | _ => m
   -- verdicts
   -- the queue holds more than limit (+ the k ≤ 2 of the last frame) stream-less frames and the connection is still open
-  let m := if m.mustClose && !closedNow && (match op with | .obs => true | .ping _ => true | .dataClosed .. => true | .wuZero _ => true | .bulk .. => true | .openThen _ => true | _ => false)
+  let m := if m.mustClose && !closedNow && (match op with | .obs => true | .ping _ => true | .dataClosed .. => true | .wuZero _ => true | .bulk .. => true | .openThen _ => true | .three => true | _ => false)
            then m.flag "flood-not-closed" else m
-  let m := match op with | .bulk .. => m.tag "serr-flood" | .openThen _ => m.tag "serr" | _ => m
+  let m := match op with | .bulk .. => m.tag "serr-flood" | .openThen _ => m.tag "serr" | .longRun .. => m.tag "long-run"
+                         | .chunk => m.tag "chunked" | _ => m
   let m := if closedNow && !m.mustClose then m.flag "early-close" else m
   match op with
   | .obs =>
